@@ -403,6 +403,22 @@ def execute(case) -> Outcome:
         elif [h for h in got_h if h[0].lower() == b"host"] != [h for h in exp_hdrs if h[0].lower() == b"host"]:
             vio.append(V(P, "host-duplicated", f"caller supplied Host but headers became {got_h!r}"))
 
+    # ---- law 8: defaults are computed per request, also when the caller re-uses one header list object for several requests
+    shared = [(b"Host", b"shared.example"), (b"X-K", b"v")] if case["hdr_kind"] != "dict" else [(b"X-K", b"v")]
+    before = list(shared)
+    try:
+        c1, c2 = _Capture(), _Capture()
+        c1.request("POST", u, headers=shared, content=b"abc")
+        c2.request("POST", u, headers=shared, content=iter([b"defgh"]) if case["content"] in ("iter", "none") else b"defgh")
+        second = [(n.lower(), v) for n, v in c2.seen.headers if n.lower() in (b"content-length", b"transfer-encoding")]
+        want2 = [(b"transfer-encoding", b"chunked")] if case["content"] in ("iter", "none") else [(b"content-length", b"5")]
+        if second != want2:
+            vio.append(V(P, "content-defaults-reused-list", f"second request with the same header list object: framing headers {second!r}, expected {want2!r}"))
+        if shared != before:
+            vio.append(V(P, "caller-headers-mutated", f"the caller's header list was changed by request(): {before!r} -> {shared!r}"))
+    except Exception as exc:
+        vio.append(V(P, "request-raises", f"re-using a header list object raised {type(exc).__name__}: {exc}", exc=type(exc).__name__))
+
     return Outcome(vio, tags, nontrivial, info={"url": url_s, "parsed": [x if not isinstance(x, bytes) else x.decode() for x in got]})
 
 
